@@ -163,6 +163,10 @@ def dump(db, tables=None):
                 out[name] = [list(r) for r in con.execute(TABLES[name]).fetchall()]
             except sqlite3.OperationalError:
                 out[name] = None
+            except sqlite3.DatabaseError as e:
+                # "database disk image is malformed", "file is not a database": the file itself is damaged; a marker
+                # that compares unequal to every healthy dump
+                out[name] = "__corrupt__: %s" % str(e)[:80]
     finally:
         con.close()
     return out
